@@ -3,7 +3,8 @@
 E4 fault / crash-point enumeration on the real `gwf run`:
   * faults: the k-th scheduler command of the run (state queries and every submission) x {non-zero exit, exit 0 with
     'error:' on stderr, exit 0 with garbage stdout, exit 0 with empty stdout}; the simulator creates no job in any of them;
-    plus a Python exception raised inside the k-th command;
+    plus a Python exception raised inside the k-th command; plus (bsub only) a *successful* submission whose answer is surrounded by
+    lines a site's submission filter prints;
   * write faults: the k-th file the run opens for writing (state files, script copies) fails with ENOSPC;
   * crash snapshots: the persistent state (project directory + scheduler) exactly as `kill -9` would leave it before and
     after every scheduler command and at open / every write / close / the publishing rename of each state-file write (Python-level buffered but
@@ -31,21 +32,30 @@ class Boom(RuntimeError):
     pass
 
 
-def base_world(meta):
-    w = CW.init_world(meta["wf"], meta["backend"], hashing=True, accounting=meta.get("accounting", True))
+def base_recipe(meta):
+    first = CW.WORKFLOWS[meta["wf"]]().names()[0]
+    acts = []
     if meta["init"] == "inflight":
-        w, r = CW.apply_action(w, ("gwf", ["run", w.wf.names()[0]]))
-        assert r.exit_code == 0, r.as_dict()
+        acts.append(("gwf", ["run", first]))
         if meta.get("started"):
-            w, _ = CW.apply_action(w, ("env", "start", w.wf.names()[0]))
-    return w.normalize()
+            acts.append(("env", "start", first))
+    return dict(wf=meta["wf"], backend=meta["backend"], actions=acts, hashing=True, accounting=meta.get("accounting", True))
 
 
-def record_calls(world):
+def base_world(meta):
+    return CW.build(**base_recipe(meta))
+
+
+def record_calls(world, meta=None):
+    from mc.errors import SetupFailed
+
     with W.Session(world) as s:
         r = s.gwf(["run"])
         calls = [(e["idx"], e["exe"]) for e in s.sim.s["journal"] if e["op"] == "call"]
-    assert r.exit_code == 0, r.as_dict()
+    if r.exit_code != 0 or r.crashed():
+        rec = base_recipe(meta) if meta else dict(wf="?", backend=world.backend(), actions=[])
+        rec["actions"] = [list(a) for a in rec["actions"]] + [["gwf", ["run"]]]
+        raise SetupFailed(rec, r.as_dict(), f"an undisturbed `gwf run` failed: {r.exc or r.err_summary()}")
     return calls
 
 
@@ -109,7 +119,7 @@ def faults2_batch(acc, batch):
     for meta in batch:
         base = base_world(meta)
         init_hash_names = set(base.hashes or {})
-        calls = record_calls(base)
+        calls = record_calls(base, meta)
         for idx, exe in calls:
             for kind in ("rc1", "stderr_error", "garbage", "exception"):
                 if exe in QUERY_EXES and kind != "rc1":
@@ -160,9 +170,9 @@ def faults_batch(acc, batch):
     for meta in batch:
         base = base_world(meta)
         init_hash_names = set(base.hashes or {})
-        calls = record_calls(base)
+        calls = record_calls(base, meta)
         for idx, exe in calls:
-            for kind in FAULT_KINDS:
+            for kind in FAULT_KINDS + (("banner",) if exe == "bsub" else ()):
                 if kind == "empty" and exe in ("squeue", "bjobs", "sacct"):
                     continue  # an empty answer from a query command is not a fault: it is how the scheduler says "no such job"
                 case = dict(kind="fault", idx=idx, exe=exe, fault=kind)
@@ -234,7 +244,12 @@ def crash_batch(acc, batch):
             s.file_hook = fhook
             r = s.gwf(["run"])
             acc.extra["invocations"] += 1
-        assert r.exit_code == 0, r.as_dict()
+        if r.exit_code != 0 or r.crashed():
+            from mc.errors import SetupFailed
+
+            rec = base_recipe(meta)
+            rec["actions"] = [list(a) for a in rec["actions"]] + [["gwf", ["run"]]]
+            raise SetupFailed(rec, r.as_dict(), f"an undisturbed `gwf run` failed: {r.exc or r.err_summary()}")
         seen = set()
         for case, w1 in snaps:
             w1.normalize()
